@@ -233,8 +233,17 @@ def determinism():
             o1 = m1.solution.objval
             m1.solve(display=False)
             o2 = m1.solution.objval
+            # the SOC approximation is a derived program: converting / soc_solve-ing any number of times at any degrees leaves the
+            # cached program as it was, and the same request gives the same converted program
+            soc = None
+            if hasattr(m1, "soc_solve") and hasattr(F1, "to_socp"):
+                c1 = S.snap(F1.to_socp(4, (-30, 60)))
+                m1.soc_solve(Oracle, degree=4, display=False)
+                m1.soc_solve(Oracle, degree=6, display=False)
+                c2 = S.snap(m1.do_math().to_socp(4, (-30, 60)))
+                soc = (S.diff(s1, S.snap(m1.do_math())), S.diff(c1, c2))
             st1 = (np.random.get_state()[1].tobytes(), np.random.get_state()[2], random.getstate())
-            return dict(same=S.diff(s1, S.snap(F2)), cached=again is F1, dual_same=(D1 == D2), after_dual=S.diff(s1, s1b),
+            return dict(soc=soc, same=S.diff(s1, S.snap(F2)), cached=again is F1, dual_same=(D1 == D2), after_dual=S.diff(s1, s1b),
                         after_solve=S.diff(s1, s1c), objs=(o1, o2), rng=(st0 == st1))
 
         obs, _ = check_function("rsome:<formulation pipeline>", setup, call,
@@ -242,6 +251,7 @@ def determinism():
                                  post("repeated-formulation-returns-the-cached-program-unchanged", lambda ns, r: r["cached"] and not r["after_dual"]),
                                  post("solving-does-not-write-to-the-formula", lambda ns, r: not r["after_solve"]),
                                  post("re-solving-gives-the-same-answer", lambda ns, r: (r["objs"][0] == r["objs"][1]) or (r["objs"][0] != r["objs"][0] and r["objs"][1] != r["objs"][1])),
+                                 post("soc-approximation-leaves-the-program-unchanged-and-is-repeatable", lambda ns, r: r["soc"] is None or (not r["soc"][0] and not r["soc"][1])),
                                  post("global-random-state-not-consumed", lambda ns, r: r["rng"])],
                                 mode="N", label=tname, bounded=True, replay=None)
         out += obs
